@@ -467,6 +467,66 @@ def _invalid_switch_case(args):
     return cnt, out
 
 
+def _contour_mesh_case(args):
+    """The contour density is the estimator of the selected events in the
+    chosen scales, evaluated on a mesh that spans those events: compared with
+    the scatter route at the mesh points, for every combination of x and y
+    scale (the two axes are scaled independently)."""
+    seed, = args
+    out = []
+    cnt = 0
+    rs = np.random.RandomState(seed + 31)
+    n = 40
+    x = np.round(rs.uniform(30, 200, n), 2)
+    y = np.round(rs.uniform(0.01, 0.2, n), 4)
+    masks = {"all": np.ones(n, bool), "two-thirds": np.arange(n) % 3 != 0,
+             "low-half": y < np.median(y), "six": np.arange(n) < 6}
+    for mname, m in masks.items():
+        ds = _new(x, y)
+        ds.filter.manual[:] = m
+        ds.apply_filter()
+        for kt in ("histogram", "gauss", "multivariate"):
+            for xsc in ("linear", "log"):
+                for ysc in ("linear", "log"):
+                    cnt += 1
+                    case = {"kind": "contour-mesh", "seed": seed, "kde": kt,
+                            "mask": mname, "xscale": xsc, "yscale": ysc}
+                    tags = {"kde": kt, "mixed": xsc != ysc}
+                    acc = dict(xacc=7.0 if xsc == "linear" else 0.05,
+                               yacc=0.01 if ysc == "linear" else 0.05)
+                    c = call(ds.get_kde_contour, kde_type=kt, xscale=xsc,
+                             yscale=ysc, **acc)
+                    if isinstance(c, Raised):
+                        out.append(violation(
+                            "dclab.rtdc_dataset.core:RTDCBase."
+                            "get_kde_contour", "exception", case, repr(c),
+                            dict(tags, exc=c.name)))
+                        continue
+                    xm, ym, dens = c
+                    sc = call(ds.get_kde_scatter, kde_type=kt, xscale=xsc,
+                              yscale=ysc, positions=(xm.ravel(), ym.ravel()))
+                    if isinstance(sc, Raised) or not np.allclose(
+                            sc, np.asarray(dens).ravel(), rtol=1e-9,
+                            atol=1e-300, equal_nan=True):
+                        out.append(violation(
+                            "dclab.rtdc_dataset.core:RTDCBase."
+                            "get_kde_contour", "contour-differs-from-scatter",
+                            case, f"{kt} x:{xsc} y:{ysc} mask {mname}: the "
+                            f"contour density differs from get_kde_scatter "
+                            f"at the mesh points", tags))
+                    for nm, mesh, data in (("x", xm, x[m]), ("y", ym, y[m])):
+                        if mesh.min() > data.min() * (1 + 1e-9) or \
+                                mesh.max() < data.max() * (1 - 1e-9):
+                            out.append(violation(
+                                "dclab.rtdc_dataset.core:RTDCBase."
+                                "get_kde_contour", "mesh-does-not-span",
+                                case, f"{kt} x:{xsc} y:{ysc} mask {mname}: "
+                                f"{nm} mesh [{mesh.min()}, {mesh.max()}] vs "
+                                f"selected events [{data.min()}, "
+                                f"{data.max()}]", dict(tags, axis=nm)))
+    return cnt, out
+
+
 def _int_axis_case(args):
     """An integer-typed feature on an axis (frame, index) and integer
     positions: the densities are those for the same numbers as floats."""
@@ -585,6 +645,7 @@ def run(ctx):
     res += par.pmap(_bigtsv_case, [(ctx.scratch,)])
     res += par.pmap(_invalid_switch_case, [(ctx.seed,)])
     res += par.pmap(_int_axis_case, [(ctx.seed,)])
+    res += par.pmap(_contour_mesh_case, [(ctx.seed,)])
     res += par.pmap(_history_case, [(lo, lo + 3, ctx.seed)
                                     for lo in range(0, 36, 3)])
     viols = []
@@ -622,6 +683,9 @@ def replay(case, ctx):
             vs += _history_case((lo, lo + 3, case["seed"]))[1]
         return [v for v in vs if v["case"]["a"] == case["a"]
                 and v["case"]["b"] == case["b"]]
+    if case["kind"] == "contour-mesh":
+        return [v for v in _contour_mesh_case((case["seed"],))[1]
+                if v["case"] == case]
     if case["kind"] == "int-axis":
         return [v for v in _int_axis_case((case["seed"],))[1]
                 if v["case"] == case]
